@@ -31,8 +31,8 @@ def run(run):
             run.stream("c16", 200000, seed_offset=k)
     return run.finish(
         level="proof",
-        rule="scripted histories (RELATIVE +-2^63 from inside / before the result, empty result with every position, DML between OPEN and WHILE IN, clamping then PRIOR/NEXT, every error case) followed by random histories of DECLARE/OPEN/FETCH/WHILE IN (with BREAK, with DML on the underlying table inside the body)/CLOSE/DISPOSE/COUNT/IS [NOT] OPEN/IS [NOT] IN RANGE and structured programs (the life-cycle statements CLOSE / DISPOSE / shadowing DECLARE / re-OPEN / DISPOSE of the shadowing cursor and FETCH / status statements INSIDE a WHILE IN body — directly, in an IF block guarded by the iteration number, or in a function called from the body —, the loop itself inside a block that declares a shadowing cursor, and the same statements in a nested block at top level; the harness simulates blocks innermost-first with the loop fetching by name on every iteration and compares traces: laws while_in_disposed_is_error, while_in_closed_is_error, while_in_follows_current_binding, block_scoping) on up to 3 cursors (case-variant names) over 6 query shapes on a temporary or CSV-file table of 0-50 rows, interleaved with INSERT/UPDATE/DELETE/COMMIT/ROLLBACK; offsets from {0, +-1, +-len, +-(len+-1), in range, just out of range, +-2^62, 2^63-1-len, +-(2^63-1), -2^63, maxint-pointer(+1), random 64 bit}; non-trivial = distinct (table kind, query, result-size class, pointer class, position, offset class, overflow, outcome, DML-since-OPEN) signature",
+        rule="scripted histories (RELATIVE +-2^63 from inside / before the result, empty result with every position, DML between OPEN and WHILE IN, clamping then PRIOR/NEXT, every error case) followed by random histories of DECLARE/OPEN/FETCH/WHILE IN (with BREAK, with DML on the underlying table inside the body)/CLOSE/DISPOSE/COUNT/IS [NOT] OPEN/IS [NOT] IN RANGE and structured programs (the life-cycle statements CLOSE / DISPOSE / shadowing DECLARE / re-OPEN / DISPOSE of the shadowing cursor and FETCH / status statements INSIDE a WHILE IN body — directly, in an IF block guarded by the iteration number, or in a function called from the body —, the loop itself inside a block that declares a shadowing cursor, and the same statements in a nested block at top level; the harness simulates blocks innermost-first with the loop fetching by name on every iteration and compares traces: laws while_in_disposed_is_error, while_in_closed_is_error, while_in_follows_current_binding, block_scoping) on up to 3 cursors (case-variant names) over 10 cursor sources (6 query shapes, cursors FOR a prepared statement without and with a placeholder — OPEN … USING k, also OPEN of an open one with another value —, a query with an observable side effect (@cnt := @cnt + 1 directly or through a user-defined function; law open_evaluates_once: one evaluation per accepted OPEN, none for a refused one), a cursor over a temporary view; the prepared statement / the view are disposed and restored during the history: law open_source_gone, refused OPEN stays \"already open\") on a temporary or CSV-file table of 0-50 rows, interleaved with INSERT/UPDATE/DELETE/COMMIT/ROLLBACK; offsets from {0, +-1, +-len, +-(len+-1), in range, just out of range, +-2^62, 2^63-1-len, +-(2^63-1), -2^63, maxint-pointer(+1), random 64 bit}; non-trivial = distinct (table kind, query, result-size class, pointer class, position, offset class, overflow, outcome, DML-since-OPEN) signature",
         trusted_base=BASE_TRUST + ["extract/cursorfetch: go/parser + go/ast translation of (*Cursor).Fetch/IsInRange/Count/Open/Close/IsOpen/Pointer, CursorMap.Declare/AddPseudoCursor/Dispose and evalCursorStatus to Lean definitions, and of WhileInCursor / the delegating methods / the scope walks to effect lists (exits non-zero outside its subset; calls it does not review appear as tokens or parameters)", "Ref/CursorOps.lean: the hand-reviewed reading of the skeletons",
-                                   "the harness' shadow evaluation of its six fixed query shapes (table order, ORDER BY id, id % 2 = 0, LIMIT k, column swap, single column)"],
+                                   "the harness' shadow evaluation of its fixed query shapes (table order, ORDER BY id [DESC], id % 2 = 0, LIMIT k, column swap, single column, id > k, the three rows of sv)"],
         checker_cmd="cd /verif && go -C extract/cursorfetch run . /repo/lib/query/cursor.go > lean/Csvq/Gen/CursorFetch.lean && cd lean && lake build Csvq.Props.C16 && lake env lean <#print axioms for every theorem>",
     )
